@@ -171,8 +171,10 @@ theorem fetchOrCreate_untouched {n : Nat} {f : PTree → PTree} {g : List PTree 
       exact ⟨H.f_id root hids, Nat.le_refl _⟩
     · cases h
     · split at h
-      · obtain ⟨e1, e2⟩ := createSteps_untouched H envC _ root n _ root' r n' (Nat.le_refl _) h
-        exact ⟨e1.trans (H.f_id root hids), e2⟩
+      · split at h
+        · cases h
+        · obtain ⟨e1, e2⟩ := createSteps_untouched H envC _ root n _ root' r n' (Nat.le_refl _) h
+          exact ⟨e1.trans (H.f_id root hids), e2⟩
       · cases h
 
 end Delb.XPath
